@@ -1,0 +1,16 @@
+//go:build verif
+
+// Contracts for the gocv verifier (comment-only file; see /verif/DESIGN.md §4).
+package coremain
+
+// A plugin's base: documented as never nil ("L returns a non-nil logger", "M returns a non-nil
+// Mosdns"); NewBP is the only constructor outside tests. Assumed, not proved.
+//@ func (p *BP) L
+//@   nobody
+//@   ensures result != nil
+//@ func (p *BP) M
+//@   nobody
+//@   ensures result != nil
+//@ func (m *Mosdns) GetPlugin
+//@   nobody
+//@   log GetPlugin
